@@ -140,6 +140,58 @@ theorem reportedExtent_partial (file : Bytes) (h : Hdr) (info : Info) (hd : deco
     (hv : h.vars ≠ []) : info.xsz ≤ info.beginVar :=
   postPass_extent h info (decodeWhole_post file h info hd) hv
 
+/-- the code as it stands is the `false` variant -/
+theorem decodeWholeV_false (file : Bytes) : decodeWholeV false file = decodeWhole file := by
+  unfold decodeWholeV fixInfo
+  cases decodeWhole file with
+  | error e => rfl
+  | ok p => obtain ⟨h, info⟩ := p; simp
+
+/-- With the repair of FB2-1 (`decodeWholeV true`) the FULL statement holds: after opening any
+    file the reported header extent is at least the header size. -/
+theorem reportedExtent_fixed (file : Bytes) (h : Hdr) (info : Info)
+    (hd : decodeWholeV true file = .ok (h, info)) : info.xsz ≤ info.beginVar := by
+  unfold decodeWholeV at hd
+  cases hw : decodeWhole file with
+  | error e => rw [hw] at hd; cases hd
+  | ok p =>
+    obtain ⟨h0, info0⟩ := p
+    rw [hw] at hd
+    simp only [Except.ok.injEq, Prod.mk.injEq] at hd
+    obtain ⟨rfl, rfl⟩ := hd
+    unfold fixInfo
+    by_cases hv : h0.vars.length = 0
+    · simp [hv]
+    · simp only [hv, and_false, if_false]
+      exact reportedExtent_partial file h0 info0 hw (fun hn => hv (by rw [hn]; rfl))
+
+/-- the repair changes nothing else: same header, same lengths, same sizes, and for files with at
+    least one variable the very same result; chunk independence carries over -/
+theorem fixed_variant_conservative (fixed : Bool) (c : Nat) (file : Bytes) :
+    decodeChunkedV fixed c file = decodeWholeV fixed file ∧
+    (∀ h info, decodeWholeV fixed file = .ok (h, info) →
+      ∃ info0, decodeWhole file = .ok (h, info0) ∧ info.lens = info0.lens ∧ info.xsz = info0.xsz ∧
+        info.recsize = info0.recsize ∧ (h.vars ≠ [] → info = info0)) := by
+  refine ⟨?_, ?_⟩
+  · unfold decodeChunkedV decodeWholeV
+    rw [PnVerif.Props.C04.chunk_independent]
+  · intro h info hd
+    unfold decodeWholeV at hd
+    cases hw : decodeWhole file with
+    | error e => rw [hw] at hd; cases hd
+    | ok p =>
+      obtain ⟨h0, info0⟩ := p
+      rw [hw] at hd
+      simp only [Except.ok.injEq, Prod.mk.injEq] at hd
+      obtain ⟨rfl, rfl⟩ := hd
+      refine ⟨info0, rfl, ?_, ?_, ?_, ?_⟩ <;> unfold fixInfo
+      · split <;> rfl
+      · split <;> rfl
+      · split <;> rfl
+      · intro hne
+        have : ¬ h0.vars.length = 0 := fun h0l => hne (List.eq_nil_of_length_eq_zero h0l)
+        simp [this]
+
 example : ∃ info, postPass PnVerif.Props.C04.exampleHdr = .ok info ∧ PnVerif.Props.C04.exampleHdr.vars ≠ [] :=
   ⟨{ xsz := 168, beginVar := 400, beginRec := 512, recsize := 3, numRecVars := 1, shapes := [[3], [0, 3]], lens := [12, 4] },
    by rfl, by simp [PnVerif.Props.C04.exampleHdr]⟩
@@ -177,6 +229,7 @@ example : (runHistory .cdf1 [] 0 none
 
 def obligations : List String := [
   "header_size_is_bytes_written", "written_header_decodes", "alignments_resolved", "begins_wf", "begins_wf_fresh",
-  "begins_wf_schema", "history_wf", "written_file_valid", "written_file_reads_back", "reportedExtent_counterexample", "reportedExtent_partial"
+  "begins_wf_schema", "history_wf", "written_file_valid", "written_file_reads_back", "reportedExtent_counterexample", "reportedExtent_partial",
+  "reportedExtent_fixed", "fixed_variant_conservative", "decodeWholeV_false"
 ]
 end PnVerif.Props.C03
